@@ -130,7 +130,8 @@ impl<'a> ArxmlLexer<'a> {
         debug_assert!(endpos > self.bufpos + 1);
         debug_assert!(self.buffer[self.bufpos] == b'<');
 
-        if self.buffer[endpos - 1] != b'?' {
+        // "<?>" is too short to contain both the opening "<?" and the closing "?>"
+        if self.buffer[endpos - 1] != b'?' || endpos < self.bufpos + 3 {
             return Some(Err(self.error(ArxmlLexerError::InvalidProcessingInstruction)));
         }
 
@@ -146,7 +147,12 @@ impl<'a> ArxmlLexer<'a> {
             let mut standalone: Option<bool> = None;
             for attr_text in splitter {
                 let (attr_name, attr_val) = if let Some(pos) = attr_text.iter().position(|c| *c == b'=') {
-                    (&attr_text[0..pos], &attr_text[pos + 2..attr_text.len() - 1])
+                    // the value must be enclosed in quotes; anything shorter than that is treated as empty
+                    if attr_text.len() >= pos + 3 {
+                        (&attr_text[0..pos], &attr_text[pos + 2..attr_text.len() - 1])
+                    } else {
+                        (&attr_text[0..pos], &attr_text[0..0])
+                    }
                 } else {
                     (attr_text, &attr_text[0..0])
                 };
